@@ -31,6 +31,11 @@
           the re-ranked list equals the published one, EVERY later path of blocks (arbitrary changes)
           gives the same lists on both nodes; `restart_same_as_continuous_noUnreg` discharges the two
           conditions for every history without un-registration.
+          Review follow-up: `odd_flag_restart_diverges` — REFUTED for the current code together with
+          the current transaction layer: an account whose isCandidate entry is neither "true" nor
+          "false" is listed by the running node and dropped at start-up (hence `Consistent.no_other`);
+          `crash_restart_diverges` — REFUTED for crash restarts (stable pointer moved, candidate list
+          not flushed): the positive restart theorems are about clean restarts.
     (D) `deputies_loadable`      the deputies written at a snapshot block pass `NewTermRecord`.  REFUTED:
           `deputies_loadable_refuted` (votes are read from the snapshot block's own post-state);
           proved instead: `deputies_loadable_partial` (votes from the parent's view).
